@@ -77,6 +77,12 @@ fn main() {
             gml::corruption_events(&mut em, geti(&m, "n", 20) as usize, geti(&m, "stride", 3) as usize, geti(&m, "seed", 0) as u64, &mut pool);
             println!("{{\"events\":{},\"child_calls\":{},\"hangs\":{},\"aborts\":{}}}", em.next_id - 1, pool.calls, pool.hangs, pool.aborts);
         }
+        "values" => {
+            let file = std::fs::File::create(m.get("out").expect("--out")).expect("create out");
+            let mut em = mutgen::Emitter::new(BufWriter::new(file));
+            gens::value_events(&mut em);
+            println!("{{\"events\":{}}}", em.next_id - 1);
+        }
         "repro" => {
             let file = std::fs::File::create(m.get("out").expect("--out")).expect("create out");
             let mut em = mutgen::Emitter::new(BufWriter::new(file));
